@@ -41,6 +41,12 @@ def shared_import_sources_with_id(world):
     return [t for t, n in users.items() if n >= 2]
 
 
+def import_var_first(world):
+    """the first component (pre-order) that holds a mapped variable is an imported component, and a later one is not"""
+    cs = [c for c in world[0].all_comps() if any(v.eqs for v in c.vars)]
+    return len(cs) >= 2 and cs[0].imp is not None and any(c.imp is None for c in cs[1:])
+
+
 def k_shared_import_source_id(case):
     """C04-shared-import-source-id: a VALID world in which an ImportSource with a non-empty id is referenced by >= 2
     imported entities (one <import id=".."> element with several children) is reported with the duplicated-identifier
@@ -470,6 +476,37 @@ def sequences_check(ctx, drv, mdl, rules, gen, n_seq, stats):
     return len(seqs), bad
 
 
+def chains_check(ctx, drv, mdl, rules, rule_cov, stats, quick):
+    """units compatibility through chains of user-defined units of depth 1-4 with exponents != 1 on every level: the
+    compatible pair must validate with 0 issues; one changed exponent at ANY level (or a wrong flat partner) must be reported"""
+    r = ctx.rng
+    grid = [(2, 1), (-1, 1), (3, 1), (1, 2), (-2, 1), (1, 1)]
+    cases = []
+    hist = collections.Counter()
+    for depth in (1, 2, 3, 4):
+        combos = set()
+        combos.add(tuple([(2, 1)] * depth))
+        while len(combos) < (8 if quick else 40):
+            combos.add(tuple(r.choice(grid) for _ in range(depth)))
+        for exps in sorted(combos):
+            sb = r.random() < 0.4
+            outer = "outer exponent != 1" if any(e != (1, 1) for e in exps[1:]) else "outer exponents 1"
+            cases.append({"kind": "valid", "world": g.chain_world(list(exps), second_base=sb),
+                          "info": {"fault": "units-chain", "where": "units-chain/depth%d/compatible" % depth, "cite": []}})
+            hist["depth %d, %s: compatible" % (depth, outer)] += 1
+            for lvl in range(1, depth + 1):
+                cases.append({"kind": "fault", "world": g.chain_world(list(exps), fault_level=lvl, second_base=sb),
+                              "info": {"fault": "units-chain", "where": "units-chain/depth%d/exponent-of-level-%d-changed" % (depth, lvl),
+                                       "cite": ["MAP_VARIABLES_ELEMENT"]}})
+                hist["depth %d, %s: level %d changed" % (depth, outer, lvl)] += 1
+            cases.append({"kind": "fault", "world": g.chain_world(list(exps), partner_wrong=True, second_base=sb),
+                          "info": {"fault": "units-chain", "where": "units-chain/depth%d/partner-exponent-wrong" % depth, "cite": ["MAP_VARIABLES_ELEMENT"]}})
+            hist["depth %d, %s: partner wrong" % (depth, outer)] += 1
+    n = evaluate(ctx, cases, drv, mdl, rules, "chains", rule_cov, stats)
+    ctx.log("units chains: %d directed cases, problems %d" % (len(cases), n))
+    return len(cases), dict(hist)
+
+
 def numbers_check(ctx, drv, mdl, rules, rule_cov, stats):
     """every near-miss / boundary number string in every position that takes a number; expected verdict from the
     automata of C16 (LC.NumDefs.real_dfa / int_dfa), correspondence with the extracted validate"""
@@ -598,6 +635,9 @@ def run(ctx):
     # ---- numbers: systematic near-miss strings in every number position
     nnum, numhist = numbers_check(ctx, drv, mdl, rules, rule_cov, stats)
 
+    # ---- units compatibility through deep chains
+    nchain, chainhist = chains_check(ctx, drv, mdl, rules, rule_cov, stats, quick)
+
     # ---- sequences on one Validator instance
     gen0 = g.Gen(ctx.rng)
     gen0.invalid_uris = g.INVALID_URIS
@@ -613,12 +653,18 @@ def run(ctx):
     fi = 0
     loc_hist = collections.Counter()
     size_hist = collections.Counter()
+    chain_hist = collections.Counter()
     for w in range(n_worlds):
         world = gen.world()
         cases.append({"kind": "valid", "world": world, "info": {"fault": "none", "where": "-", "cite": []}})
         m = world[0]
         size_hist["components=%d" % min(len(m.all_comps()), 6)] += 1
         size_hist["world=%d" % len(world)] += 1
+        for ch in getattr(m, "chains", []):
+            outer = any(e != (1, 1) for e in ch["exps"][1:])
+            chain_hist["valid: chain depth %d%s vs %s partner" % (ch["depth"], ", outer exponent != 1" if outer else "", ch["partner_kind"])] += 1
+        if import_var_first(world):
+            chain_hist["valid: mapped variable of an imported component first in traversal order"] += 1
         size_hist["depth=%d" % max([0] + [int(g.comp_class(m, c).split("/")[0][12:] or 0) if g.comp_class(m, c).startswith("enc") else 0 for c in m.all_comps()])] += 1
         tried = 0
         made = 0
@@ -631,6 +677,10 @@ def run(ctx):
                 continue
             fw, info = r
             cases.append({"kind": "fault", "world": fw, "info": info})
+            if "chain" in info:
+                chain_hist["fault: exponent changed at level %d of a chain of depth %d" % (info["chain"]["level"], info["chain"]["depth"])] += 1
+            if info["fault"] in ("equivalence-unreachable", "interface-insufficient", "equivalence-units", "equivalence-parentless") and import_var_first(fw):
+                chain_hist["fault: connection fault AFTER a mapped variable of an imported component"] += 1
             loc_hist[info["where"].split("/")[0]] += 1
             made += 1
     ctx.log("generated %d cases" % len(cases))
@@ -645,7 +695,7 @@ def run(ctx):
             if h not in seen:
                 seen.add(h)
                 nontrivial += 1
-    ctx.cov["evaluations"] += len(cases) + ncorpus + nnum
+    ctx.cov["evaluations"] += len(cases) + ncorpus + nnum + nchain
     ctx.cov["distinct_nontrivial"] = nontrivial
     ctx.cov["rule"] = ("a case is a world (model + the models attached to its import sources) built through the public API and validated by "
                        "Validator::validateModel and by the extracted ValidDefs.validate; non-trivial = a valid world with exactly one injected "
@@ -653,6 +703,7 @@ def run(ctx):
     ctx.cov["rule_coverage"] = {r: {"injected": v["injected"], "detected": v["detected"], "locations": dict(v["locations"])}
                                 for r, v in sorted(rule_cov.items())}
     ctx.cov["input_distribution"] = {"cases": dict(stats), "fault_location_classes": dict(loc_hist), "world_shapes": dict(size_hist),
+                                     "units_chains_and_import_order": dict(chain_hist), "units_chains_directed": chainhist,
                                      "name_strings": nstr, "corpus_cases": ncorpus, "number_cases": numhist,
                                      "sequences_on_one_validator": nseq}
     ctx.cov["samples"] = [cases[0] and g.to_tokens(cases[0]["world"])[:400], json.dumps(cases[1]["info"]) if len(cases) > 1 else "",
